@@ -24,6 +24,7 @@ func init() {
 	nd.Register("VerifC09Status", VerifC09Status)
 	nd.Register("VerifC09Namespace", VerifC09Namespace)
 	nd.Register("VerifC09Search", VerifC09Search)
+	nd.Register("VerifC09ViewSearch", VerifC09ViewSearch)
 }
 
 var c09msgs = []string{
@@ -205,8 +206,15 @@ func c09bits(msg *message) (bits [4]bool, clean bool) {
 }
 
 func VerifC09Store() {
-	const k, nf3 = 2, 3 // two messages (target + bystander), first three flags of the universe
-	mb, uids, _ := c09state(k)
+	const k, nf3 = 2, 2 // two messages (target + bystander), first two flags of the universe (\\Seen, \\Deleted)
+	// (UIDs are concrete here: addressing is VerifC09Addressing's subject)
+	mb := NewMailbox("m", 7)
+	mb.tracker = imapserver.NewMailboxTracker(uint32(k))
+	uids := []uint32{10, 4000000000}
+	for _, u := range uids {
+		mb.l = append(mb.l, &message{uid: imap.UID(u), buf: []byte(c09msgs[0]), flags: map[imap.Flag]struct{}{}})
+	}
+	mb.uidNext = 4000000001
 	view := mb.NewView()
 	var pre [k][4]bool
 	for i := 0; i < k; i++ {
@@ -613,9 +621,17 @@ func VerifC09Search() {
 			sm, sc := c09genSub()
 			c.Not = []imap.SearchCriteria{*sc}
 			want = nd.And(want, !c09match(sm, bits, size, day, uid, seq))
-		case 2: // OR sub1 sub2
+		case 2: // OR sub1 sub2 (the second operand from a smaller family)
 			s1, c1 := c09genSub()
-			s2, c2 := c09genSub()
+			s2 := c09crit{flag: -1, notFlag: -1}
+			c2 := &imap.SearchCriteria{}
+			if nd.Bool() {
+				s2.flag = 2
+				c2.Flag = []imap.Flag{"CUSTOM"}
+			} else {
+				s2.notFlag = 0
+				c2.NotFlag = []imap.Flag{"\\SEEN"}
+			}
 			c.Or = [][2]imap.SearchCriteria{{*c1, *c2}}
 			want = nd.And(want, nd.Or(c09match(s1, bits, size, day, uid, seq), c09match(s2, bits, size, day, uid, seq)))
 		}
@@ -632,4 +648,85 @@ func VerifC09Search() {
 	got := msg.search(seq, c)
 	nd.Assert(nd.Iff(got, want), "search-result-differs-from-reference-matcher")
 	nd.Reach("searched")
+}
+
+// ---------------------------------------------------------------------------
+// SEARCH through the mailbox view: '*' and ranges in sequence/UID sets at the top level
+// and below NOT / OR must be resolved against the mailbox (RFC 9051 6.4.4).
+
+func VerifC09ViewSearch() {
+	k := nd.Param("k")
+	mb, uids, _ := c09state(k)
+	view := mb.NewView()
+	uidKey := nd.Bool()
+	a, b := nd.Uint32(), nd.Uint32()
+	var key imap.SearchCriteria
+	if uidKey {
+		var us imap.UIDSet
+		us.AddRange(imap.UID(a), imap.UID(b))
+		key.UID = []imap.UIDSet{us}
+	} else {
+		var ss imap.SeqSet
+		ss.AddRange(a, b)
+		key.SeqNum = []imap.SeqSet{ss}
+	}
+	// a second, concrete key: message 1
+	var one imap.SearchCriteria
+	one.SeqNum = []imap.SeqSet{imap.SeqSetNum(1)}
+	shape := nd.Choice(4)
+	var c imap.SearchCriteria
+	switch shape {
+	case 0:
+		c = key
+	case 1:
+		c.Not = []imap.SearchCriteria{key}
+	case 2:
+		c.Or = [][2]imap.SearchCriteria{{key, one}}
+	default:
+		c.Or = [][2]imap.SearchCriteria{{one, key}}
+	}
+	kind := imapserver.NumKindSeq
+	if nd.Bool() {
+		kind = imapserver.NumKindUID
+	}
+	data, err := view.Search(kind, &c, &imap.SearchOptions{})
+	nd.Assert(err == nil && data != nil, "search-fails")
+	var max uint32
+	if uidKey {
+		if k > 0 {
+			max = uids[k-1]
+		}
+	} else {
+		max = uint32(k)
+	}
+	var count uint32
+	for i := 0; i < k; i++ {
+		x := uint32(i + 1)
+		if uidKey {
+			x = uids[i]
+		}
+		in := c09inRange(a, b, x, max)
+		want := in
+		switch shape {
+		case 1:
+			want = !in
+		case 2, 3:
+			want = nd.Or(in, i == 0)
+		}
+		got := false
+		switch all := data.All.(type) {
+		case imap.SeqSet:
+			got = all.Contains(uint32(i + 1))
+		case imap.UIDSet:
+			got = all.Contains(imap.UID(uids[i]))
+		default:
+			nd.Fail("search-result-has-no-number-set")
+		}
+		nd.Assert(nd.Iff(got, want), "view-search-result-differs-from-reference")
+		if want {
+			count++
+		}
+	}
+	nd.Assert(data.Count == count, "view-search-count-differs-from-reference")
+	nd.Reach("view-searched")
 }
